@@ -45,6 +45,10 @@ def build(prog, d, family="gcc", dwarf=4, opt="-O0", kind="so", out=None, debug=
             argv[2:2] = ["-std=gnu11", "-fcommon" if any(v.common for v in prog.variables) else "-fno-common"]
         else:
             argv[2:2] = ["-std=gnu++14"]
+            # By default both compilers leave a class as a mere declaration in translation units that "do not need" it
+            # (clang: limited debug info; gcc: polymorphic classes only where the vtable goes).  What the analysed binary
+            # then lacks is the compiler's choice, not the reader's: ask for complete class descriptions.
+            argv[2:2] = ["-fstandalone-debug"] if family == "clang" else ["-femit-class-debug-always"]
         argv[2:2] = list(extra)
         _run(argv, d)
         objs.append(obj)
